@@ -105,10 +105,6 @@ pub proof fn lemma_lawful_cells<'a>()
 // =====================================================================================================================
 // Specification (mathematics, from properties C08 / C01 / C03): which cells of the stream make the range
 // =====================================================================================================================
-/// rows never decrease along the stream (the order in which the sheet part stores its rows) -- "row-sorted cells"
-pub closed spec fn rows_mono<T: CellType>(cs: Seq<Cell<T>>) -> bool {
-    forall|i: int, j: int| 0 <= i <= j < cs.len() ==> (#[trigger] cs[i]).pos.0 <= (#[trigger] cs[j]).pos.0
-}
 /// a cell counts for the header-row-n read: it is non-empty (Empty is the default value of the cell type) and not above row n
 pub closed spec fn wanted<T: CellType>(c: Cell<T>, n: int) -> bool { c.val != dflt::<T>() && c.pos.0 >= n }
 /// filter(wanted(_, n), cs), order preserved
@@ -224,11 +220,10 @@ proof fn lemma_push_contains<A>(s: Seq<A>, a: A, x: A)
     }
     if x == a { assert(t[s.len() as int] == x); }
 }
-/// keep is the order-preserving filter: membership and row order
+/// keep is the filter: membership
 proof fn lemma_keep_props<T: CellType>(cs: Seq<Cell<T>>, n: int)
     ensures
         forall|x: Cell<T>| #[trigger] keep(cs, n).contains(x) <==> (cs.contains(x) && wanted(x, n)),
-        rows_mono(cs) ==> rows_mono(keep(cs, n)),
         keep(cs, n).len() <= cs.len(),
     decreases cs.len(),
 {
@@ -245,28 +240,6 @@ proof fn lemma_keep_props<T: CellType>(cs: Seq<Cell<T>>, n: int)
         assert forall|x: Cell<T>| #[trigger] keep(cs, n).contains(x) <==> (cs.contains(x) && wanted(x, n)) by {
             lemma_push_contains(d, l, x);
             lemma_push_contains(keep(d, n), l, x);
-        }
-        if rows_mono(cs) {
-            assert(rows_mono(d)) by {
-                assert forall|i: int, j: int| 0 <= i <= j < d.len() implies (#[trigger] d[i]).pos.0 <= (#[trigger] d[j]).pos.0 by {
-                    assert(d[i] == cs[i] && d[j] == cs[j]);
-                }
-            }
-            let kd = keep(d, n);
-            let k = keep(cs, n);
-            assert forall|i: int, j: int| 0 <= i <= j < k.len() implies (#[trigger] k[i]).pos.0 <= (#[trigger] k[j]).pos.0 by {
-                if j < kd.len() {
-                    assert(k[i] == kd[i] && k[j] == kd[j]);
-                } else if i < kd.len() {
-                    // k == kd.push(l), j is the new last element; k[i] is some cs[m], m < last
-                    assert(k[j] == l);
-                    assert(kd.contains(kd[i]));
-                    assert(d.contains(kd[i]));
-                    let m = choose|m: int| 0 <= m < d.len() && d[m] == kd[i];
-                    assert(cs[m] == kd[i]);
-                    assert(cs[m].pos.0 <= cs[cs.len() - 1].pos.0);
-                }
-            }
         }
     }
 }
@@ -303,11 +276,10 @@ proof fn lemma_take_step<T: CellType>(s: Seq<Cell<T>>, k: int, n: int)
 // C08, the heart: what the Row(n) read shows, relative to the default read of the same sheet
 // ---------------------------------------------------------------------------------------------------------------------
 //@@ props C08
-/// For a row-sorted cell stream `cs`: rn = from_sparse(pad_n(filter(nonempty /\ row >= n))) and r0 = from_sparse(filter(nonempty)).
+/// For a cell stream `cs` (rows in any order): rn = from_sparse(pad_n(filter(nonempty /\ row >= n))) and r0 = from_sparse(filter(nonempty)).
 pub proof fn header_row_lemma<T: CellType>(cs: Seq<Cell<T>>, n: u32, r0: Range<T>, rn: Range<T>)
     requires
         lawful::<T>(),
-        rows_mono(cs),
         sparse_of(r0, lazy_cells(HeaderRow::FirstNonEmptyRow, cs)),
         sparse_of(rn, lazy_cells(HeaderRow::Row(n), cs)),
     ensures
@@ -355,16 +327,9 @@ pub proof fn header_row_lemma<T: CellType>(cs: Seq<Cell<T>>, n: u32, r0: Range<T
         lemma_keep_last_val(cs, n as int, r, c);
         if p.len() != k.len() {
             let pc = Cell { pos: (n, k[0].pos.1), val: dflt::<T>() };
+            // the padding cell comes first and holds the default value: a kept cell at its position overrides it, and without one
+            // the position shows the default value either way
             lemma_last_val_prepend(pc, k, r, c);
-            if cell_at(pc, r, c) {
-                // no kept cell sits in row n: they are all below the first one, which is below n
-                lemma_last_val_some(k, r, c);
-                if last_val(k, r, c) is Some {
-                    let j = choose|j: int| 0 <= j < k.len() && cell_at(#[trigger] k[j], r, c);
-                    assert(k[0].pos.0 <= k[j].pos.0);
-                    assert(k[0].pos.0 >= n);
-                }
-            }
         }
     }
 }
@@ -458,29 +423,6 @@ pub proof fn lemma_range_determined_by_cells<T: CellType>(cs: Seq<Cell<T>>, r1: 
 //@@ props C08,C07,C01,C03,C06
 
 
-/// the cells handed to from_sparse satisfy its documented precondition whenever the stream is row-sorted
-proof fn lemma_lazy_cells_sorted<T: CellType>(hr: HeaderRow, cs: Seq<Cell<T>>)
-    requires rows_mono(cs),
-    ensures rows_mono(lazy_cells(hr, cs)), rows_sorted(lazy_cells(hr, cs)),
-{
-    match hr {
-        HeaderRow::FirstNonEmptyRow => { lemma_keep_props(cs, 0); }
-        HeaderRow::Row(n) => {
-            lemma_keep_props(cs, n as int);
-            let k = keep(cs, n as int);
-            let p = pad(k, n);
-            assert forall|j: int| 0 <= j < k.len() implies (#[trigger] k[j]).pos.0 >= n by { assert(k.contains(k[j])); }
-            if p.len() != k.len() {
-                assert forall|i: int, j: int| 0 <= i <= j < p.len() implies (#[trigger] p[i]).pos.0 <= (#[trigger] p[j]).pos.0 by {
-                    if i > 0 { assert(p[i] == k[i - 1] && p[j] == k[j - 1]); }
-                    else if j > 0 { assert(p[j] == k[j - 1]); }
-                }
-            }
-        }
-    }
-}
-
-
 /// C07 "converted cell-by-cell": DataRef -> Data keeps the variant and the payload; SharedString(s) becomes String(s)
 pub open spec fn to_data<'a>(value: DataRef<'a>) -> Data {
     match value {
@@ -562,7 +504,7 @@ pub open spec fn lazy_result_ok<T: CellType, E>(src: LazySrc<Cell<T>, E>, naw: b
     match src {
         LazySrc::OpenErr(e) => if naw { r is Ok && r->Ok_0.wf() && !r->Ok_0.nonempty() } else { r is Err && r->Err_0 == e },
         LazySrc::Stream { cells, end: Some(e), dims } => r is Err && r->Err_0 == e,
-        LazySrc::Stream { cells, end: None, dims } => r is Ok && (rows_mono(cells) ==> sparse_of(r->Ok_0, lazy_cells(hr, cells))),
+        LazySrc::Stream { cells, end: None, dims } => r is Ok && sparse_of(r->Ok_0, lazy_cells(hr, cells)),
     }
 }
 
@@ -588,7 +530,6 @@ fn witness_header_row_lemma() {
         assert(v0@ =~= lazy_cells(HeaderRow::FirstNonEmptyRow, stream));
         assert(pad(seq![c], 2) =~= seq![pc, c]);
         assert(vn@ =~= lazy_cells(HeaderRow::Row(2), stream));
-        assert(rows_mono(stream));
     }
     let r0 = Range::from_sparse(v0);
     let rn = Range::from_sparse(vn);
@@ -767,11 +708,19 @@ pub assume_specification<T, U, F>[ Option::<T>::map_or ](o: Option<T>, default: 
     requires o is Some ==> f.requires((o->Some_0,)),
     ensures o is None ==> r == default, o is Some ==> f.ensures((o->Some_0,), r);
 
+/// a product of two spans (each at most 2^32) exceeds u64 only when both are 2^32
 proof fn lemma_u32_product(a: int, b: int)
-    requires 0 <= a <= u32::MAX, 0 <= b <= u32::MAX,
-    ensures 0 <= a * b <= u64::MAX,
+    requires 0 <= a <= 0x1_0000_0000, 0 <= b <= 0x1_0000_0000,
+    ensures 0 <= a * b, (a <= u32::MAX || b <= u32::MAX) ==> a * b <= u64::MAX, a == 0x1_0000_0000 && b == 0x1_0000_0000 ==> a * b > u64::MAX,
 {
-    assert(0 <= a * b <= 0xffff_ffff * 0xffff_ffff) by (nonlinear_arith) requires 0 <= a <= 0xffff_ffff, 0 <= b <= 0xffff_ffff;
+    assert(0 <= a * b) by (nonlinear_arith) requires 0 <= a, 0 <= b;
+    if a <= 0xffff_ffff {
+        assert(a * b <= 0xffff_ffff * 0x1_0000_0000) by (nonlinear_arith) requires 0 <= a <= 0xffff_ffff, 0 <= b <= 0x1_0000_0000;
+    } else if b <= 0xffff_ffff {
+        assert(a * b <= 0x1_0000_0000 * 0xffff_ffff) by (nonlinear_arith) requires 0 <= a <= 0x1_0000_0000, 0 <= b <= 0xffff_ffff;
+    } else {
+        assert(a * b == 0x1_0000_0000 * 0x1_0000_0000) by (nonlinear_arith) requires a == 0x1_0000_0000, b == 0x1_0000_0000;
+    }
 }
 
 //@@ impl src/lib.rs Dimensions
@@ -779,10 +728,14 @@ proof fn lemma_u32_product(a: int, b: int)
 //@@ sig
     ensures
         //# C06.dimensions_len
-        self.start.0 <= self.end.0 && self.start.1 <= self.end.1 ==> r == (self.end.0 - self.start.0 + 1) * (self.end.1 - self.start.1 + 1),
+        // the number of positions `contains` accepts (none when the corners are reversed), saturated at u64::MAX (2^32 x 2^32 positions)
+        r == (if self.start.0 <= self.end.0 && self.start.1 <= self.end.1 {
+                let n = (self.end.0 - self.start.0 + 1) * (self.end.1 - self.start.1 + 1);
+                if n <= u64::MAX { n } else { u64::MAX as int }
+            } else { 0 }),
 //@@ body
         proof {
-            if self.start.0 <= self.end.0 && self.start.1 <= self.end.1 && self.end.0 - self.start.0 < u32::MAX && self.end.1 - self.start.1 < u32::MAX {
+            if self.start.0 <= self.end.0 && self.start.1 <= self.end.1 {
                 lemma_u32_product(self.end.0 - self.start.0 + 1, self.end.1 - self.start.1 + 1);
             }
         }
@@ -822,7 +775,7 @@ proof fn lemma_u32_product(a: int, b: int)
         ({ let src = old(self).sheet_src(name@); src is Stream && src->end is Some ==> r is Err && r->Err_0 == src->end->Some_0 }),
         //# C08,C01.lazy_filter
         ({ let src = old(self).sheet_src(name@); src is Stream && src->end is None ==>
-            r is Ok && (rows_mono(src->cells) ==> sparse_of(r->Ok_0, lazy_cells(old(self).hr(), src->cells))) }),
+            r is Ok && sparse_of(r->Ok_0, lazy_cells(old(self).hr(), src->cells)) }),
         //# C07.lazy_result_bundle
         lazy_result_ok(old(self).sheet_src(name@), old(self).naw(name@), old(self).hr(), r),
 //@@ before /let len = /
@@ -897,7 +850,6 @@ proof fn lemma_u32_product(a: int, b: int)
             }
             //# C08.lazy_cells_handed_to_from_sparse
             assert(cells@ == lazy_cells(header_row, stream));
-            if rows_mono(stream) { lemma_lazy_cells_sorted(header_row, stream); }
         }
 //@@ end
 //@@ endimpl
@@ -964,7 +916,7 @@ impl Xlsx<VerifRs> {
         ({ let src = old(self).sheet_src(name@); src is Stream && src->end is Some ==> r is Err && r->Err_0 == src->end->Some_0 }),
         //# C08,C03.lazy_filter
         ({ let src = old(self).sheet_src(name@); src is Stream && src->end is None ==>
-            r is Ok && (rows_mono(src->cells) ==> sparse_of(r->Ok_0, lazy_cells(old(self).hr(), src->cells))) }),
+            r is Ok && sparse_of(r->Ok_0, lazy_cells(old(self).hr(), src->cells)) }),
         //# C07.lazy_result_bundle
         lazy_result_ok(old(self).sheet_src(name@), false, old(self).hr(), r),
 //@@ before /let len = /
@@ -1039,7 +991,6 @@ impl Xlsx<VerifRs> {
             }
             //# C08.lazy_cells_handed_to_from_sparse
             assert(cells@ == lazy_cells(header_row, stream));
-            if rows_mono(stream) { lemma_lazy_cells_sorted(header_row, stream); }
         }
 //@@ end
 //@@ endimpl
